@@ -448,6 +448,6 @@ def run(prog, rep, tier, snap):
     rep.rule("R14.4", "the per-run limit in the daemon is written only from an occurrence's duration", 1)
     rep.call(r14_4, prog, rep)
     from . import c18
-    rep.rule("R18.6", "the duration reader consumes the T between day and time part: what echsd/echsq write for limits beyond a day is read (shared with C18)", 2)
-    rep.call(c18.r18_6, prog, rep)
+    rep.rule("R18.8", "the duration reader reads what echsd/echsq write for limits (every grammatical spelling, incl. PnDTnH...; shared with C18)", 1)
+    rep.call(c18.r18_8, prog, rep)
 READY = True
